@@ -13,9 +13,24 @@ C05 — A predicate partitions rows into TRUE, FALSE and NULL parts.
   unsound (witness) for the NULL-supplying side.
 * `facts_match` — the rewrite table of `pushNotFiltersHelper`, re-extracted from the source on
   every run, is the table the model implements.
+* `facts_simplify` + `simplify_*` — what each BETWEEN / OR / AND / NOT case of
+  `analyzer.simplifyExpression` may return (re-extracted on every run), and that each of these shapes
+  has the value of the expression it replaces; `between_empty_range`, `fold_empty_range_to_false_unsound`
+  — an empty literal range is FALSE on every non-NULL operand but NULL on NULL, so folding it to FALSE
+  moves the NULL part of the partition into the FALSE part.
+* `facts_idxIter` + `index_scan_complete`, `index_scan_tlp` — `memory.indexScanRowIter` (the iterator
+  behind every secondary-index lookup; its loop shape is re-extracted on every run) delivers exactly
+  the index entries satisfying the lookup's range expression, in both directions, so the three index
+  lookups for `p`, `NOT p`, `p IS NULL` partition the index; `stop_after_run_sound_single_column`,
+  `stop_after_run_unsound_box` — leaving the loop at the first entry past a run of matches is only
+  sound for one-column ranges, not for a box over a multi-column index.
+* `finding_join_on_folds_false_beside_subquery` — known finding of the unchanged engine (error 1105
+  when a join condition folds to FALSE beside an unnested WHERE subquery).
 -/
 import Gms.Lemmas.Rel
+import Gms.Lemmas.MemIdxIter
 import Gms.Model.PushNot
+import Gms.Model.FilterFold
 import Gms.Generated.C05
 
 namespace Gms.PushNot
@@ -247,6 +262,243 @@ example : PushNot.eval (fun _ => .int 2) (fun _ _ => .null) (.not (.not (.atom 0
 theorem mutant_lt_to_gt_refuted :
     ∃ a b, negOpWrong .lt = some .gt ∧ cmpTri .gt a b ≠ Tri.not (cmpTri .lt a b) :=
   ⟨.int 1, .int 1, rfl, by decide⟩
+
+/-! ### Filter simplification: `analyzer.simplifyExpression` -/
+
+/-- What the BETWEEN / OR / AND / NOT cases of `simplifyExpression` can return (first result of each
+`return`, in source order), as extracted from the source on this run. Each shape is covered by one
+of the `simplify_*` lemmas below; in particular no BETWEEN is ever replaced by a literal. -/
+theorem facts_simplify :
+    Gms.Generated.C05.simplifyReturns =
+      [("Between", ["NewEquals", "NewLessThanOrEqual", "NewGreaterThanOrEqual",
+                    "NewAnd NewGreaterThanOrEqual NewLessThanOrEqual"]),
+       ("Or", ["NewTrue", "NewTrue", "NewFalse", "e.RightChild", "e.LeftChild", "e"]),
+       ("And", ["NewFalse", "NewFalse", "NewTrue", "e.RightChild", "e.LeftChild", "e"]),
+       ("Not", ["e", "NewLiteral", "e"])] := by
+  decide
+
+theorem bytesCmp_self : ∀ a : List UInt8, bytesCmp a a = .eq
+  | [] => rfl
+  | x :: xs => by simp [bytesCmp, bytesCmp_self xs]
+
+theorem cmp?_self (v : Value) (h : v ≠ .null) : v.cmp? v = some .eq := by
+  cases v with
+  | null => exact absurd rfl h
+  | int i => simp [Value.cmp?]
+  | str b => simp [Value.cmp?, bytesCmp_self]
+
+theorem and_t_left (x : Tri) : Tri.and .t x = x := by cases x <;> rfl
+theorem and_t_right (x : Tri) : Tri.and x .t = x := by cases x <;> rfl
+theorem and_f_left (x : Tri) : Tri.and .f x = .f := by cases x <;> rfl
+theorem and_f_right (x : Tri) : Tri.and x .f = .f := by cases x <;> rfl
+theorem or_t_left (x : Tri) : Tri.or .t x = .t := by cases x <;> rfl
+theorem or_t_right (x : Tri) : Tri.or x .t = .t := by cases x <;> rfl
+theorem or_f_left (x : Tri) : Tri.or .f x = x := by cases x <;> rfl
+theorem or_f_right (x : Tri) : Tri.or x .f = x := by cases x <;> rfl
+
+/-- `v BETWEEN f AND f` ↦ `v = f` (lower and upper bound are the same field). -/
+theorem simplify_between_same_bounds (v f : Value) : betweenTri v f f = cmpTri .eq v f := by
+  simp only [betweenTri, cmpTri]
+  cases v.cmp? f with
+  | none => rfl
+  | some o => cases o <;> rfl
+
+/-- `f BETWEEN f AND u` ↦ `f <= u` (tested value and lower bound are the same field). -/
+theorem simplify_between_val_is_lower (f u : Value) : betweenTri f f u = cmpTri .le f u := by
+  by_cases h : f = .null
+  · subst h; simp [betweenTri, cmpTri, Value.cmp?, Tri.and]
+  · have : cmpTri .ge f f = .t := by simp only [cmpTri, cmp?_self f h]; rfl
+    rw [betweenTri, this, and_t_left]
+
+/-- `f BETWEEN l AND f` ↦ `f >= l` (tested value and upper bound are the same field). -/
+theorem simplify_between_val_is_upper (f l : Value) : betweenTri f l f = cmpTri .ge f l := by
+  by_cases h : f = .null
+  · subst h; simp [betweenTri, cmpTri, Value.cmp?, Tri.and]
+  · have : cmpTri .le f f = .t := by simp only [cmpTri, cmp?_self f h]; rfl
+    rw [betweenTri, this, and_t_right]
+
+/-- Every other BETWEEN ↦ `v >= lo AND v <= hi`: the definition. -/
+theorem simplify_between_unfold (v lo hi : Value) :
+    betweenTri v lo hi = Tri.and (cmpTri .ge v lo) (cmpTri .le v hi) := rfl
+
+/-- OR / AND with an operand that is a definite (non-NULL) literal: the six return shapes. Returning
+the other operand itself is guarded by `types.IsBoolean` in the code: it preserves the truth value
+always and the value when the operand is boolean (`toValue_truth_of_bool`). -/
+theorem simplify_or_and_literal (x : Tri) :
+    Tri.or .t x = .t ∧ Tri.or x .t = .t ∧ Tri.or .f .f = .f ∧ Tri.or .f x = x ∧ Tri.or x .f = x
+    ∧ Tri.and .f x = .f ∧ Tri.and x .f = .f ∧ Tri.and .t .t = .t ∧ Tri.and .t x = x ∧ Tri.and x .t = x :=
+  ⟨or_t_left x, or_t_right x, rfl, or_f_left x, or_f_right x, and_f_left x, and_f_right x, rfl, and_t_left x,
+    and_t_right x⟩
+
+/-- A NULL literal operand decides nothing (`getDefiniteBoolValues` returns `false, false` for it):
+`NULL OR x` and `NULL AND x` still depend on `x`. -/
+theorem null_literal_is_not_definite :
+    Tri.or .u .t ≠ Tri.or .u .f ∧ Tri.and .u .t ≠ Tri.and .u .f := by decide
+
+/-- `NOT <literal>` ↦ the negated literal. -/
+theorem simplify_not_literal (v : Value) :
+    (Tri.not v.truth).toValue.truth = Tri.not v.truth := truth_toValue _
+
+/-- **An empty literal range**: `v BETWEEN lo AND hi` with `lo > hi` is FALSE on every non-NULL `v`
+but NULL on NULL. -/
+theorem between_empty_range (v : Value) (lo hi : Int) (h : hi < lo) :
+    betweenTri v (.int lo) (.int hi) = if v.isNull then .u else .f := by
+  cases v with
+  | null => rfl
+  | str b => simp only [betweenTri, cmpTri, Value.cmp?, Value.isNull]; rfl
+  | int i =>
+    simp only [betweenTri, cmpTri, Value.cmp?, Value.isNull]
+    by_cases h1 : i < lo
+    · have : compare i lo = .lt := Int.compare_eq_lt.mpr h1
+      simp [this, CmpOp.holds, Tri.ofBool, and_f_left]
+    · have : compare i hi = .gt := Int.compare_eq_gt.mpr (by omega)
+      simp [this, CmpOp.holds, Tri.ofBool, and_f_right]
+
+/-- The line of the TODO list above the BETWEEN case ("If e.Lower > e.Upper, simplify to false") must
+not be implemented literally: on a NULL operand the folded predicate is FALSE where the original is
+NULL, so `NOT p` keeps a row that belongs to the NULL part, and `p IS NULL` loses it. -/
+theorem fold_empty_range_to_false_unsound :
+    ∃ (v : Value) (lo hi : Int), hi < lo ∧
+      Tri.not (betweenTri v (.int lo) (.int hi)) ≠ .t ∧ Tri.not Tri.f = .t ∧
+      betweenTri v (.int lo) (.int hi) = .u :=
+  ⟨.null, 5, 3, by decide, by decide, rfl, rfl⟩
+
+/-- … and it is exactly the NULL operand that goes wrong (sharpness). -/
+theorem fold_empty_range_to_false_sound_on_non_null (v : Value) (lo hi : Int) (h : hi < lo)
+    (hv : v.isNull = false) : betweenTri v (.int lo) (.int hi) = .f := by
+  rw [between_empty_range v lo hi h, hv]; rfl
+
+/-! ### Index lookups: `memory.indexScanRowIter` -/
+
+section IndexScan
+open Gms.MemIdxIter
+
+/-- The shape of `indexScanRowIter` the model `Gms.MemIdxIter` transliterates, as extracted on this
+run: the state is a position in the index storage, the loop visits every entry (`i++` / `i--` from
+the first / last one), and the only exits are the stale-location `continue`, the error `return`, and
+the `break` on a match — after which the position moves on by one. -/
+theorem facts_idxIter :
+    Gms.Generated.C05.idxIterFields =
+      ["index", "ranges", "lookup", "indexRows", "incrementFunc", "primaryRows", "columns", "virtualCols", "i",
+       "numColumns"]
+    ∧ Gms.Generated.C05.idxIterLoopCond = "i.i < len(i.indexRows) && i.i >= 0"
+    ∧ Gms.Generated.C05.idxIterLoopPost = "i.incrementFunc()"
+    ∧ Gms.Generated.C05.idxIterLoopExits =
+      [("continue", "len(i.primaryRows[rowLoc.partition]) <= rowLoc.idx"), ("return", "err != nil"),
+       ("break", "matches")]
+    ∧ Gms.Generated.C05.idxIterLoopMoves = [("i.incrementFunc()", "matches")]
+    ∧ Gms.Generated.C05.idxIterSetup =
+      [("i := 0", ""), ("i = len(indexRows) - 1", "lookup.IsReverse"), ("iter.i--", "lookup.IsReverse"),
+       ("iter.i++", "!(lookup.IsReverse)")] := by
+  decide
+
+/-- An index lookup delivers exactly the entries whose key satisfies the range expression — each
+once, whatever the direction, whatever the range expression (one box, many boxes, any predicate). -/
+theorem index_scan_complete {α : Type} (m : Key → Bool) (rev : Bool) (es : List (Entry α)) :
+    (scan m rev es).Perm (Spec.scan m es) ∧ (∀ e, e ∈ scan m rev es ↔ e ∈ es ∧ m e.key = true) :=
+  ⟨scan_perm m rev es, mem_scan m rev es⟩
+
+/-- In the forward direction the entries come in index order, in the reverse direction backwards. -/
+theorem index_scan_order {α : Type} (m : Key → Bool) (es : List (Entry α)) :
+    scan m false es = Spec.scan m es ∧ scan m true es = (Spec.scan m es).reverse :=
+  ⟨scan_forward m es, scan_reverse m es⟩
+
+/-- TLP through the index: if on every key exactly one of the three range expressions (those of `p`,
+`NOT p`, `p IS NULL`) holds, the three lookups partition the index, in any mix of directions. -/
+theorem index_scan_tlp {α : Type} (mT mF mN : Key → Bool) (rT rF rN : Bool) (es : List (Entry α))
+    (h : ∀ k, (mT k = true ∧ mF k = false ∧ mN k = false) ∨ (mT k = false ∧ mF k = true ∧ mN k = false)
+      ∨ (mT k = false ∧ mF k = false ∧ mN k = true)) :
+    es.Perm (scan mT rT es ++ scan mF rF es ++ scan mN rN es) := by
+  have h3 := Gms.Rel.filter3_perm (fun e : Entry α => mT e.key) (fun e => mF e.key) (fun e => mN e.key) es
+    (fun e _ => h e.key)
+  refine h3.trans ?_
+  exact ((scan_perm mT rT es).symm.append (scan_perm mF rF es).symm).append (scan_perm mN rN es).symm
+
+/-- Leaving the loop at the first entry past a run of matches ("the entries of a single range are
+adjacent") is sound for a one-column index and a single interval … -/
+theorem stop_after_run_sound_single_column {α : Type} (r : Interval) (es : List (Entry α))
+    (hs : es.Pairwise (fun a b => key1Le a.key b.key)) :
+    scanStopAfterRun (Box.holds [r]) es = Spec.scan (Box.holds [r]) es :=
+  scanStopAfterRun_of_sorted_convex (Box.holds [r]) key1Le (box1_convex r) es hs
+
+/-- … and whenever the matches happen to be adjacent … -/
+theorem stop_after_run_sound_contiguous {α : Type} (m : Key → Bool) (es : List (Entry α))
+    (h : Contiguous m es) : scanStopAfterRun m es = Spec.scan m es :=
+  scanStopAfterRun_of_contiguous m es h
+
+/-- … but NOT for a single box over a two-column index: for `a > 1 AND b = 2` on the sorted entries
+`(2,1) (2,2) (3,1) (3,2) (4,2)` the matches `(2,2) (3,2) (4,2)` are interleaved with non-matches, and
+stopping after the first run loses two of them. -/
+def exIdx : List (Entry Nat) :=
+  [⟨[some 2, some 1], 0⟩, ⟨[some 2, some 2], 1⟩, ⟨[some 3, some 1], 2⟩, ⟨[some 3, some 2], 3⟩, ⟨[some 4, some 2], 4⟩]
+def exBox : Box := [.range (some (1, false)) none, .range (some (2, true)) (some (2, true))]
+
+theorem stop_after_run_unsound_box :
+    (scan (Box.holds exBox) false exIdx).map (·.row) = [1, 3, 4]
+    ∧ (scan (Box.holds exBox) true exIdx).map (·.row) = [4, 3, 1]
+    ∧ (scanStopAfterRun (Box.holds exBox) exIdx).map (·.row) = [1]
+    ∧ (scanStopAfterRun (Box.holds exBox) exIdx.reverse).map (·.row) = [4, 3] := by
+  decide
+
+/-- Non-vacuity of `index_scan_tlp`: `a > 1 AND b = 2`, its negation and its NULL part on an index
+with NULL keys. -/
+example :
+    let es : List (Entry Nat) := exIdx ++ [⟨[none, some 2], 5⟩, ⟨[some 4, none], 6⟩]
+    let mT : Key → Bool := Box.holds exBox
+    let mN : Key → Bool := fun k => boxesHold [[.isNull, .range (some (2, true)) (some (2, true))],
+      [.range (some (1, false)) none, .isNull], [.isNull, .isNull]] k
+    let mF : Key → Bool := fun k => !mT k && !mN k
+    (scan mT false es).map (·.row) = [1, 3, 4] ∧ (scan mN true es).map (·.row) = [6, 5]
+      ∧ (scan mF false es).map (·.row) = [0, 2] := by
+  decide
+
+end IndexScan
+
+/-! ### Known finding `join_on_folds_false_beside_subquery` (engine level, no Impl model of the planner)
+
+When the ON of a join constant-folds to FALSE, `simplifyFilters` puts an `EmptyTable` into the join
+tree; if the same statement has a WHERE / ON subquery that is unnested into a semi / anti join, the
+join planner fails: error 1105 `failed to replan join: unknown type for rel output cols:
+*memo.EmptyTable`. So one of `WHERE p` / `WHERE NOT p` / `WHERE p IS NULL` fails where the others
+answer. The region is decided on the case by `Gms.FilterFold.Region_join_on_folds_false_beside_subquery`
+(an over-approximation of "may fold to FALSE"; mirrored by harness/cmd/c05/region.go, re-decided by the
+driver); inside it a case is only taken out of the correspondence when the engine shows exactly this
+error, otherwise it is compared with the definition as usual. -/
+
+section FoldRegion
+open Gms.FilterFold
+
+def exFoldDb : Db := [⟨1, [[.int 1], [.int 2]]⟩]
+/-- `t0 a LEFT JOIN t0 b ON (a.c0 > b.c0 AND 1 = 0)` -/
+def exFoldQ : Query :=
+  .join .left (.and (.cmp .gt (.col 0 0) (.col 0 1)) (.cmp .eq (.lit (.int 1)) (.lit (.int 0)))) (.table 0) (.table 0)
+/-- `EXISTS (SELECT … FROM t0 c WHERE c.c0 = 1)` -/
+def exFoldP : Expr := .exists (.filter (.cmp .eq (.col 0 0) (.lit (.int 1))) (.table 0))
+
+/-- The witness: the statement `… WHERE NOT p` is in the region; the definition answers it (no row:
+`p` is TRUE on both NULL-padded rows) — the engine fails with error 1105 (replayed, see
+known_findings/C05.jsonl), while `WHERE p` returns the two rows on both sides. -/
+theorem finding_join_on_folds_false_beside_subquery :
+    Region_join_on_folds_false_beside_subquery (.filter (.not exFoldP) exFoldQ) = true
+    ∧ Rel.eval exFoldDb (.filter (.not exFoldP) exFoldQ) = []
+    ∧ Rel.eval exFoldDb (.filter exFoldP exFoldQ) = [[.int 1, .null], [.int 2, .null]] := by
+  decide
+
+/-- The region needs both ingredients: a statement without a subquery in WHERE / ON, and a statement
+none of whose join conditions can fold to FALSE, are outside it (and are compared with the
+definition in full). -/
+theorem region_needs_subquery_and_foldable_join (q : Query) :
+    (predHasSub q = false → Region_join_on_folds_false_beside_subquery q = false)
+    ∧ (joinMayFoldFalse q = false → Region_join_on_folds_false_beside_subquery q = false) := by
+  constructor <;> intro h <;> simp [Region_join_on_folds_false_beside_subquery, h]
+
+/-- A condition whose every conjunct compares columns cannot fold: the ordinary ON of the generators
+is outside the region, the witness' ON is inside. -/
+example : (foldE (.and (.cmp .eq (.col 0 0) (.col 0 1)) (.cmp .lt (.col 0 0) (.lit (.int 3))))).mayF = false
+    ∧ (foldE (.and (.cmp .gt (.col 0 0) (.col 0 1)) (.cmp .eq (.lit (.int 1)) (.lit (.int 0))))).mayF = true := by
+  decide
+
+end FoldRegion
 
 /-! ### The partition law -/
 
